@@ -30,6 +30,8 @@ type Node struct {
 	Fin      []*Node
 	Inl      bool // try: body is a single call executed in the context that owns the TRY
 	Nat      *NatOp
+	Inner    bool    // model only: a further phase of the running native method (no frame of its own)
+	Rest     []*Node // model only: the rest of the native method, run inside its frame
 }
 
 // NatOp is a native-contract call made by a tree node.
@@ -41,6 +43,7 @@ type NatOp struct {
 	HasCb bool    // data != null: the receiver's onNEP17Payment runs Cb
 	Cb    []*Node // payment callback program
 	Val   int     // policy value
+	Tag   int     // number of the native node in its tree (NEO methods: names the pending GAS reward)
 }
 
 const (
@@ -123,7 +126,7 @@ func nodeText(sb *strings.Builder, n *Node) {
 		case natSetFee:
 			fmt.Fprintf(sb, "F %d %d ", n.Nat.Val, n.Fl)
 		case natBlock:
-			fmt.Fprintf(sb, "B %d %d ", n.Nat.Val, n.Fl)
+			fmt.Fprintf(sb, "B %d %d %d ", n.Nat.Val, n.Fl, n.Nat.Tag)
 		case natUnblock:
 			fmt.Fprintf(sb, "U %d %d ", n.Nat.Val, n.Fl)
 		case natDeploy:
@@ -139,10 +142,10 @@ func nodeText(sb *strings.Builder, n *Node) {
 		case natDelWl:
 			fmt.Fprintf(sb, "V %d %d ", n.Nat.To, n.Fl)
 		case natNeoTransfer:
-			fmt.Fprintf(sb, "E %d %d %d %d ", n.Nat.To, n.Nat.Amt, n.Fl, b2i(n.Nat.HasCb))
+			fmt.Fprintf(sb, "E %d %d %d %d %d ", n.Nat.To, n.Nat.Amt, n.Fl, n.Nat.Tag, b2i(n.Nat.HasCb))
 			listText(sb, n.Nat.Cb)
 		case natVote:
-			fmt.Fprintf(sb, "O %d %d ", n.Nat.Val, n.Fl)
+			fmt.Fprintf(sb, "O %d %d %d ", n.Nat.Val, n.Fl, n.Nat.Tag)
 		default:
 			panic("bad native kind")
 		}
